@@ -3387,9 +3387,11 @@ func (r *Resolver) checkPriming() {
 			if v6, ok := r.(*dns.AAAA); ok {
 				serverName := strings.ToLower(v6.Header().Name)
 				if nsServers[serverName] {
-					foundServers[serverName] = true
-					if addr, valid := netip.AddrFromSlice(v6.AAAA); valid {
-						endpoint := netip.AddrPortFrom(addr.Unmap(), 53)
+					// Same filters as referral glue: never loopback or one
+					// of our own interface addresses.
+					if addr, valid := usableAddr(v6.AAAA); valid {
+						foundServers[serverName] = true
+						endpoint := netip.AddrPortFrom(addr, 53)
 						if _, ok := seenEndpoints[endpoint]; !ok {
 							seenEndpoints[endpoint] = struct{}{}
 							tmpservers.List = append(tmpservers.List, authority.NewServerFromAddrPort(endpoint))
@@ -3405,9 +3407,9 @@ func (r *Resolver) checkPriming() {
 		if v4, ok := r.(*dns.A); ok {
 			serverName := strings.ToLower(v4.Header().Name)
 			if nsServers[serverName] {
-				foundServers[serverName] = true
-				if addr, valid := netip.AddrFromSlice(v4.A); valid {
-					endpoint := netip.AddrPortFrom(addr.Unmap(), 53)
+				if addr, valid := usableAddr(v4.A); valid {
+					foundServers[serverName] = true
+					endpoint := netip.AddrPortFrom(addr, 53)
 					if _, ok := seenEndpoints[endpoint]; !ok {
 						seenEndpoints[endpoint] = struct{}{}
 						tmpservers.List = append(tmpservers.List, authority.NewServerFromAddrPort(endpoint))
